@@ -500,6 +500,6 @@ pub fn run(ctx: &mut Ctx) {
         .into();
     ctx.assumptions = vec!["the bare system is the oracle; its own semantics is C06's subject".into()];
     let ctx = &*ctx;
-    ctx.cases("adapters", ctx.n(4000, 60000), 0, adapters_case);
-    ctx.cases("scripted_client", ctx.n(20000, 400000), 0, script_case);
+    ctx.cases("adapters", ctx.n(4000, 300000), 0, adapters_case);
+    ctx.cases("scripted_client", ctx.n(20000, 1500000), 0, script_case);
 }
